@@ -7,7 +7,7 @@ id="$1"; shift
 for p in "$@"; do
   git add go/internal go/cmd lean/Golib/Prelude
   if git apply -3 "$p" 2>&1 | tee /tmp/integ.log | grep -q 'with conflicts'; then echo "CONFLICT in $p"; git reset -q; exit 1; fi
-  grep -q '^error' /tmp/integ.log && { cat /tmp/integ.log; git reset -q; exit 1; }
+  grep -q 'patch does not apply' /tmp/integ.log && { cat /tmp/integ.log; git reset -q; exit 1; }
   git reset -q; echo "applied $p"
 done
 tools/merge_targets.py "$id"
